@@ -166,6 +166,29 @@ func c16(p *P) {
 				}
 			}
 		}
+		// the streaming goroutine outlives Request(): it must work on a private copy of the request, not on the
+		// caller's *Request (whose fields the caller may change for the next page while the stream is drained)
+		if par := cl.Parent(); par != nil {
+			bad := ""
+			for _, in := range instrsOf(par) {
+				mc, ok := in.(*ssa.MakeClosure)
+				if !ok || mc.Fn != cl {
+					continue
+				}
+				for _, b := range mc.Bindings {
+					var src ssa.Value = b
+					if a, ok := b.(*ssa.Alloc); ok {
+						if pv := spilledParam(a); pv != nil {
+							src = pv
+						}
+					}
+					if pr, ok := src.(*ssa.Parameter); ok && strings.HasSuffix(shortType(pr.Type()), "certexchange.Request") && strings.HasPrefix(shortType(pr.Type()), "*") {
+						bad = "the receive goroutine captures the caller's request pointer " + pr.Name()
+					}
+				}
+			}
+			r.Check(bad == "", "C16.R3", "certexchange.Client.Request: the receive goroutine uses a private copy of the request", p.c.Pos(cl.Pos()), "no capture of the *Request parameter", bad+" — the sequence/limit checks would follow later modifications of the request object")
+		}
 		if len(sends) == 0 {
 			r.Undecided("C16.R3", "certexchange.Client.Request: delivery", "no channel send found in the receive loop")
 		} else {
@@ -228,6 +251,22 @@ func c16(p *P) {
 					}
 				}
 				r.Check(together, "C16.R4", "polling.Poller.Poll: power table advances together with the next instance", p.c.InstrPos(ni.Store), "PowerTable store in the same block / dominating", "NextInstance can advance on a path where PowerTable is not updated — later certificates would be validated against a stale table")
+			}
+			// the advance does not depend on who stored the certificate: when the local store already holds it
+			// (GPBFT finished the instance meanwhile) the poller still moves on to the next instance
+			for _, rel := range []Rel{RelLT, RelEQ} {
+				inj2 := canonIs("", `^certstore\.Store\.Latest\(\$0\.Store\)$`, avNonNil).with(cmpRel("", `^<-.*\.GPBFTInstance$`, `^certstore\.Store\.Latest\(\$0\.Store\)\.GPBFTInstance$`, rel)).all(poll)
+				s2 := RunSCCP(poll, inj2)
+				for _, f := range []string{"NextInstance", "PowerTable"} {
+					reach := false
+					for _, fs := range fieldStores(poll, false, "Poller", f) {
+						if s2.Reachable(fs.Store) {
+							reach = true
+						}
+					}
+					relName := map[Rel]string{RelLT: "older than", RelEQ: "equal to"}[rel]
+					r.Check(reach, "C16.R4", "polling.Poller.Poll: "+f+" advances past a validated certificate "+relName+" the store's latest", p.c.Pos(poll.Pos()), "advance reachable", f+" is only advanced when the poller stores the certificate itself — a certificate finalized locally in the meantime stalls the poller and brands an honest peer illegal")
+				}
 			}
 			// illegal classification on failure
 			inj := errFails("fail", "certs.ValidateFinalityCertificates", "").Match(poll)
